@@ -2,7 +2,7 @@ ID = "C11"
 TESTS = [
     T("susclock", "TestC11ContendedOutcome",
       {"checks": 700, "shards": 4, "timeout": 300},
-      {"checks": 8000, "shards": 8, "timeout": 1500}),
+      {"checks": 3000, "shards": 8, "timeout": 1800}),
 ]
 ASSUMPTIONS = [
     "C11 contended outcome: Suspend()/Resume() of concurrent storage reads may hold the clock's lock at the instant a run context ends, and a base clock's Now() may take a while; the waiters read Err() and Value(UnsuspendedDurationKey{}) immediately after Done(), as LocalBuildExecutor.Execute() and the runner client do. Real goroutines on real time: the schedule is the Go runtime's (each script is executed several times); every oracle is a validity predicate that holds in every schedule (no elapsed-time verdicts: only 'duration <= wall time between creation and wake-up' and 'suspended throughout => not before timeout + maximum compensation', both lower bounds on wall time that load can only make easier to satisfy)",
